@@ -27,7 +27,7 @@ NAMES_OF = {v: k for k, v in CODES.items()}
 ACTIONS = ['CollectLayers', 'CallAuthorize', 'FilterActualLayers', 'RenderAndMerge', 'InfoGate', 'WmsCapabilities',
            'TileAuthorize', 'TileRender', 'TileInfoGate', 'TileDocument', 'TileCapabilities']
 PROPERTY = ['DeniedStaysDark', 'ClippedOutside', 'ContentInside', 'InfoGateOK']
-BASE_INV = ['TypeOK', 'NoStuck', 'StatusOK']
+BASE_INV = ['TypeOK', 'StatusOK']
 FD = tla.FrozenDict
 TLC_WORKERS = 4
 
@@ -361,32 +361,47 @@ def world_root(w):
 def run_model(ctx, inst, combine, invariants, emit, label, timeout=1500):
     d = ctx.sub('mc-%s-%s' % (inst.name, label))
     mp, cp = tlc.write_mc(d, 'Auth', 'MC_Auth', inst.consts(combine), invariants=list(invariants) + (['Emit'] if emit else []))
-    r = tlc.run(mp, cp, d, workers=TLC_WORKERS, timeout=timeout)
+    r = tlc.run(mp, cp, d, workers=TLC_WORKERS, timeout=timeout, coverage=False)
     ctx.log('TLC %s/%s: %d states, %s  [%.0fs]' % (inst.name, label, r.distinct,
                                                  'violates ' + r.violated if r.violated else ('ok' if r.ok else r.error), r.wall))
     return r
 
 
 def cases_of(r):
-    """printed terminal states -> {key: (req, cb, out, pruned, property holds on out)}"""
+    """printed terminal states -> {key: (req, cb, out, pruned, property holds on out, path)}"""
     table = {}
     for pr in tlc.find_prints(r.out, 'case'):
-        _, req, cb, out, pruned, prop = pr
+        _, req, cb, out, pruned, prop, path = pr
         req, cb = norm_req(req), norm_cb(cb)
-        table[case_key(req, cb)] = (req, cb, out, bool(pruned), bool(prop))
+        table[case_key(req, cb)] = (req, cb, out, bool(pruned), bool(prop), tuple(str(a) for a in path))
     return table
 
 
-def vacuity_guard(name, r, need):
+def vacuity_guard(name, inst, r, table, need):
+    """every (request, callback result) pair reaches exactly one terminal state (no stuck state, no branching), and every
+    action the instance is meant to exercise was taken (action coverage from the recorded paths)"""
+    nentry = (1 + len(inst.perms) * len(inst.lims)) ** len(inst.entries)
+    ncb = len([a for a in inst.auth if a != 'partial']) + (nentry * len(inst.globs) if 'partial' in inst.auth else 0)
+    expected = ncb * len(set(inst.requests))
+    if len(table) != expected:
+        raise tlc.MachineryError('%s: %d terminal states printed for %d (request, callback result) pairs' % (name, len(table), expected))
+    if r.distinct != sum(len(v[5]) + 1 for v in table.values()):
+        raise tlc.MachineryError('%s: %d states, but the printed paths account for %d' % (
+            name, r.distinct, sum(len(v[5]) + 1 for v in table.values())))
+    cov = {}
+    for v in table.values():
+        for a in v[5]:
+            cov[a] = cov.get(a, 0) + 1
+    r.coverage = {a: (n, n) for a, n in cov.items()}
     for a in need:
-        if r.coverage.get(a, (0, 0))[0] == 0:
-            raise tlc.MachineryError('%s: action %s was never taken (coverage %r)' % (name, a, r.coverage))
+        if cov.get(a, 0) == 0:
+            raise tlc.MachineryError('%s: action %s was never taken (coverage %r)' % (name, a, cov))
 
 
 def table_guard(name, table):
     """the table must contain the situations the property speaks about (non-vacuity of the invariants)"""
     seen = set()
-    for req, cb, out, pruned, prop in table.values():
+    for req, cb, out, pruned, prop, path in table.values():
         seen.add('status%d' % out['status'])
         f = req['f']
         for row in out['px']:
@@ -462,8 +477,8 @@ def instances(tier):
     seqs = [('g',), ('a', 'g'), ('g', 'a'), ('a', 'b'), ('b', 'g')]
     reqs = [mkreq('wms.map', s, box=S_OFF) for s in seqs] + [mkreq('wms.fi', s, box=S_TILE, pos=(1, 1)) for s in seqs[:3]] + [mkreq('wms.caps')]
     reqs += [mkreq('tms', lay='g', tile=(2, 2, 2)), mkreq('wmts.fi.rest', lay='g', tile=(2, 2, 2), pos=(1, 1)), mkreq('tms.caps')]
-    out.append(Instance('group-with-sources', w5, reqs, ['full', 'partial'], [(True, True, True), (True, False, False), (False, False, True)],
-                        ['none', 'Ghalf', 'Goff'], ['none', 'Gtop'], ['a', 'b', 'g'], variants=('found', 'repaired')))
+    out.append(Instance('group-with-sources', w5, reqs, ['full', 'partial'], [(True, True, True)] + ([(True, False, False), (False, False, True)] if thorough else []),
+                        ['none', 'Goff'], ['none', 'Gtop'], ['a', 'b', 'g'], variants=('found', 'repaired')))
     return out
 
 
@@ -497,7 +512,7 @@ def replay_table(ctx, apps, inst, tables, variant_of_code, label):
     table = tables[variant_of_code if variant_of_code in tables else 'found']
     nbad = 0
     for n, key in enumerate(sorted(table)):
-        req, cb, out, pruned, prop_ok = table[key]
+        req, cb, out, pruned, prop_ok, path = table[key]
         variant = n % len(FORMS)
         obs = observe(world, app, req, cb, inst.geoms, variant)
         ctx.cov['replayed_behaviours'] += 1
@@ -790,29 +805,30 @@ def run(ctx):
                 r = run_model(ctx, inst, True, BASE_INV + PROPERTY, True, 'repaired')
                 if not r.ok:
                     raise tlc.MachineryError('Auth.tla (%s, repaired variant): %r\n%s' % (inst.name, r, r.out[-1500:]))
-                ctx.add_tlc('Auth %s (both limits applied), property checked' % inst.name, r)
-                vacuity_guard('Auth ' + inst.name, r, need)
                 tables['repaired'] = cases_of(r)
+                vacuity_guard('Auth ' + inst.name, inst, r, tables['repaired'], need)
                 # ... the model of the code as found does not (detect_variant); its terminal states are the table for the code as found
                 rf = run_model(ctx, inst, False, BASE_INV + ['DeniedStaysDark', 'ContentInside'], True, 'found')
                 if not rf.ok:
                     raise tlc.MachineryError('Auth.tla (%s, code as found): %r\n%s' % (inst.name, rf, rf.out[-1500:]))
-                ctx.add_tlc('Auth %s (code as found), terminal states' % inst.name, rf)
                 tables['found'] = cases_of(rf)
+                vacuity_guard('Auth ' + inst.name, inst, rf, tables['found'], need)
+                ctx.add_tlc('Auth %s (both limits applied), property checked' % inst.name, r)
+                ctx.add_tlc('Auth %s (code as found), terminal states' % inst.name, rf)
             else:
                 rr = run_model(ctx, inst, False, BASE_INV + PROPERTY, True, 'model')
                 if not rr.ok:
                     raise tlc.MachineryError('Auth.tla (%s): %r\n%s' % (inst.name, rr, rr.out[-1500:]))
-                ctx.add_tlc('Auth %s, property checked' % inst.name, rr)
-                vacuity_guard('Auth ' + inst.name, rr, need)
                 tables['found'] = cases_of(rr)
+                vacuity_guard('Auth ' + inst.name, inst, rr, tables['found'], need)
+                ctx.add_tlc('Auth %s, property checked' % inst.name, rr)
             for t in tables.values():
                 if not t:
                     raise tlc.MachineryError('no cases printed by TLC for %s' % inst.name)
                 seen_situations |= table_guard(inst.name, t)
                 npruned += sum(1 for v in t.values() if v[3])
             for vname, t in tables.items():
-                if any(not v[4] for v in t.values()) != (vname == 'found' and 'repaired' in tables):
+                if any(not v[4] for v in t.values()) and not (vname == 'found' and 'repaired' in tables):
                     raise tlc.MachineryError('%s/%s: unexpected property verdicts in the printed table' % (inst.name, vname))
             replay_table(ctx, apps, inst, tables, code_variant, 'spec->code')
         for need in ('status200', 'status401', 'status403', 'wms:dark', 'wms:content', 'wms:band', 'tms:dark', 'tms:content', 'tms:band',
